@@ -393,6 +393,11 @@ func runC17(e *Env) Outcome {
 				why = fmt.Sprintf("panic differs: concurrent %q, alone %q", got.pan, ref.pan)
 			case got.ok != ref.ok:
 				why = fmt.Sprintf("error-ness differs: concurrent ok=%v, alone ok=%v", got.ok, ref.ok)
+			case !got.ok:
+				// Both calls failed. What a failed call left behind (bytes written
+				// before the error, a partial value) is not part of what it
+				// "returns": with an unsupported type it legitimately depends on
+				// which caller happened to discover the type first.
 			case !bytes.Equal(got.out, ref.out):
 				why = fmt.Sprintf("bytes differ: concurrent %x, alone %x", clipBytes(got.out, 120), clipBytes(ref.out, 120))
 			case rec.Join(got.evs) != rec.Join(ref.evs):
